@@ -405,6 +405,9 @@ pub struct Interp<'h> {
     pub noeffect: Vec<usize>,
     /// steps that injected a response the model expects to be dropped although its id is outstanding
     pub forged: Vec<usize>,
+    /// steps at which the interpreter itself drained the agent before injecting a response (the
+    /// control runs keep that drain so that the poll schedule of the history is unchanged)
+    pub drained: Vec<usize>,
 }
 
 fn ms_of(origin: Instant, t: Instant) -> u64 {
@@ -441,6 +444,7 @@ impl<'h> Interp<'h> {
             last_drop_peer: None,
             noeffect: vec![],
             forged: vec![],
+            drained: vec![],
         }
     }
 
@@ -795,21 +799,24 @@ impl<'h> Interp<'h> {
                 let Some(tx) = self.model.outstanding.get(&tid).cloned() else {
                     // could it be a corrupted retransmission of a transaction that is due?
                     let due_tx = self.model.outstanding.iter().find(|(_, t)| t.due(now) == Due::Send).map(|(i, _)| *i);
-                    return Err(match due_tx {
-                        Some(i) => self.d(
+                    // bytes that carry the id of a transaction that completed earlier: a life-cycle
+                    // defect; anything else is not the serialisation of any outstanding request
+                    let completed = self.model.completed_ids.contains(&tid);
+                    return Err(match (completed, due_tx) {
+                        (true, _) => self.d(
+                            "C05",
+                            "c05-transmit-after-completion",
+                            format!("poll transmits {} for transaction {:#x} which is not outstanding (it completed earlier)", hex_short(&data), tid),
+                        ),
+                        (false, Some(i)) => self.d(
                             "C18",
                             "c18-bytes",
                             format!("retransmission of {:#x} is due but poll transmits different bytes {}", i, hex_short(&data)),
                         ),
-                        None => self.d(
-                            "C05",
-                            "c05-transmit-after-completion",
-                            format!(
-                                "poll transmits {} for transaction {:#x} which is not outstanding ({})",
-                                hex_short(&data),
-                                tid,
-                                if self.model.completed_ids.contains(&tid) { "it completed earlier" } else { "unknown id" }
-                            ),
+                        (false, None) => self.d(
+                            "C18",
+                            "c18-bytes",
+                            format!("poll transmits {} which is not the serialisation of any request that is outstanding", hex_short(&data)),
                         ),
                     });
                 };
@@ -998,6 +1005,7 @@ impl<'h> Interp<'h> {
         // when a drop of a response to an outstanding transaction is expected, pin the timer first
         let mut pinned: Option<u64> = None;
         if expect_deliver == Some(false) {
+            self.drained.push(self.step);
             self.do_drain()?;
             // the drain may have completed the transaction
             if self.model.outstanding.contains_key(&tid) {
@@ -1315,6 +1323,7 @@ pub struct RunInfo {
     pub result: Result<Summary, Disc>,
     pub noeffect: Vec<usize>,
     pub forged: Vec<usize>,
+    pub drained: Vec<usize>,
 }
 
 pub fn run_history_info(h: &History) -> RunInfo {
@@ -1324,13 +1333,30 @@ pub fn run_history_info(h: &History) -> RunInfo {
         result,
         noeffect: std::mem::take(&mut i.noeffect),
         forged: std::mem::take(&mut i.forged),
+        drained: std::mem::take(&mut i.drained),
     }
 }
 
-pub fn without_steps(h: &History, steps: &[usize]) -> History {
+/// The history without the calls at `steps`. A removed step at which the interpreter drained the
+/// agent before the call (`drained`) is replaced by a plain Drain, so that the control run polls
+/// the agent at exactly the same instants as the original.
+pub fn without_steps(h: &History, steps: &[usize], drained: &[usize]) -> History {
     History {
         tcp: h.tcp,
-        ops: h.ops.iter().enumerate().filter(|(i, _)| !steps.contains(i)).map(|(_, o)| o.clone()).collect(),
+        ops: h
+            .ops
+            .iter()
+            .enumerate()
+            .filter_map(|(i, o)| {
+                if !steps.contains(&i) {
+                    Some(o.clone())
+                } else if drained.contains(&i) {
+                    Some(Op::Drain)
+                } else {
+                    None
+                }
+            })
+            .collect(),
     }
 }
 
@@ -1508,8 +1534,12 @@ pub fn record_run_clock(
                             Err(e) => format!("id={:x} send err {:?}", pool_id(*id), e),
                         });
                     });
-                    if let Some(mut r) = agent.mut_request_transaction(TransactionId::from(pool_id(*id))) {
-                        r.configure_timeout(Duration::from_millis(*rto_ms as u64), *retransmits as u32, Duration::from_millis(*last_ms as u64));
+                    // configure_timeout belongs to the send: applied only to the transaction this send created
+                    let sent = replies.last().map_or(false, |l| l.contains(" send ok "));
+                    if sent {
+                        if let Some(mut r) = agent.mut_request_transaction(TransactionId::from(pool_id(*id))) {
+                            r.configure_timeout(Duration::from_millis(*rto_ms as u64), *retransmits as u32, Duration::from_millis(*last_ms as u64));
+                        }
                     }
                 }
             }
